@@ -12,7 +12,8 @@ Aspects of disagreement (each check picks the ones its property owns):
   conflict  - wrong exception class for a taken pair; wrong success/failure                  (C03)
   unchanged - a failing add changed something observable (table, teardown, events)           (C03)
   stable    - a pair returned a different object than before                                 (C03)
-  factory   - factory call counts / generated object scope / AsyncResourceError              (C04)
+  factory   - factory call counts / AsyncResourceError                                       (C04)
+  generated-scope - a generated object is visible where it must not be, or the wrong generation    (C02, C04)
   lifecycle - operation allowed/denied in the wrong lifecycle state, closed flag, re-entry   (C13)
   events    - resource_added events differ from the model                                    (C18)
   teardown  - teardown callbacks run at unwinding differ from the model
@@ -283,6 +284,11 @@ class Universe:
                 if fkind == "async":
                     async def fcb() -> Any:
                         return make()
+                elif fkind == "alambda":
+                    async def _coro() -> Any:
+                        return make()
+
+                    fcb = lambda: _coro()  # noqa: E731 - an async factory that is not a coroutine function
                 else:
                     def fcb() -> Any:  # type: ignore[misc]
                         return make()
@@ -363,6 +369,10 @@ class Universe:
                 ctx.add_resource(val, "z", A, teardown_callback="notcallable")  # type: ignore[arg-type]
             elif form == "bad-td-multi":
                 ctx.add_resource(AB(vlabel), "z", [A, B], teardown_callback=5)  # type: ignore[arg-type]
+            elif form == "bad-td-zero":
+                ctx.add_resource(val, "z", A, teardown_callback=0)  # type: ignore[arg-type]
+            elif form == "bad-td-empty":
+                ctx.add_resource(AB(vlabel), "z", [A, B], teardown_callback="")  # type: ignore[arg-type]
             elif form == "f-empty-name":
                 ctx.add_resource_factory(lambda: val, "", types=A)
             elif form == "f-dot-name":
@@ -412,7 +422,7 @@ class Universe:
                 return ("exc", "RuntimeError")
             if any((t, name) in m.fac for t in types):
                 return ("exc", "ResourceConflict")
-            f = {"label": flabel, "types": types, "name": name, "async": fkind == "async"}
+            f = {"label": flabel, "types": types, "name": name, "async": fkind in ("async", "alambda")}
             for t in types:
                 m.fac[(t, name)] = f
             m.events.append((types, name, "d" + flabel, True))
@@ -481,7 +491,7 @@ class Universe:
         elif got != exp:
             if kind == "get":
                 # which aspect: a generated object with the wrong generation number is a factory matter
-                asp = "factory" if (isinstance(exp[1], str) and "#" in exp[1]) or (isinstance(got[1], str) and "#" in str(got[1])) else "visible"
+                asp = "generated-scope" if (isinstance(exp[1], str) and "#" in exp[1]) or (isinstance(got[1], str) and "#" in str(got[1])) else "visible"
                 self.fail(asp, f"{op} on c{idx}: expected {exp[1]}, got {got[1]}")
                 m = self.models[idx]
             else:
@@ -507,7 +517,7 @@ class Universe:
                 exp = {c["name"]: c["v"] for (t, n), c in m.res.items() if t == tname}
                 if got != exp:
                     gen = any("#" in str(v) for v in list(got.values()) + list(exp.values()))
-                    self.fail("factory" if gen else "visible", f"{where}: get_resources({tname}) on c{idx} = {got}, model {exp}")
+                    self.fail("generated-scope" if gen else "visible", f"{where}: get_resources({tname}) on c{idx} = {got}, model {exp}")
                     self.fail("unchanged", f"{where}: get_resources({tname}) on c{idx} = {got}, model {exp}")
             try:
                 closed = bool(ctx.closed)
@@ -536,8 +546,8 @@ def events_match(got: list, exp: list) -> bool:
     for g, e in zip(got, exp):
         et = e[0]
         if et and et[0] == "gen":
-            # generation: the factory's types, or the subset actually registered (the statement leaves it open)
-            if g[0] not in (et[1], et[2]):
+            # generation: "carrying the registered types" = the types the product was actually registered under
+            if g[0] != et[2]:
                 return False
         elif g[0] != et:
             return False
